@@ -138,7 +138,7 @@ def judge_recorded(tlc_in, maxsteps=60000, timeout=3000, ck=None, part=None):
     for b in range(0, len(tlc_in), BATCH):
         batch = tlc_in[b:b + BATCH]
         data = "\n".join(json.dumps(t) for t in batch) + "\n"
-        cfg = "SPECIFICATION Spec\nCONSTANT SessionsFile = \"sessions.ndjson\"\nCONSTANT MaxSteps = %d\nVIEW View\nINVARIANT NoResidue\nINVARIANT SpecSane\nCHECK_DEADLOCK FALSE\n" % maxsteps
+        cfg = "SPECIFICATION Spec\nCONSTANT SessionsFile = \"sessions.ndjson\"\nCONSTANT MaxSteps = %d\nVIEW View\nINVARIANT NoResidue\nINVARIANT SpecSane\nPROPERTIES GlobalsOnlyAtTopLevel FrameOnlyByOwner OutputOnlyGrows\nCHECK_DEADLOCK FALSE\n" % maxsteps
         r = vlib.run_tlc("CalcSem", "SemRun.cfg", files={"sessions.ndjson": data, "SemRun.cfg": cfg}, timeout=timeout)
         if r.violation:
             raise vlib.Infra("CalcSem's own invariant failed (specification defect, not a verdict): " + r.violation + "\n" + r.raw[-1500:])
